@@ -72,9 +72,12 @@ Line(t) == [t |-> t, ev |-> 0]
 PotSeqsUpTo(MP) == UNION {{ps \in [1..n -> Sp \X Sp] :
                      \A i, j \in 1..n : i # j => {ps[i][1], ps[i][2]} # {ps[j][1], ps[j][2]}} : n \in 1..MP}
 
-PairModels(Tg) == {[fam |-> "pair", tgt |-> t, nr |-> n, nrho |-> 0, pots |-> ps, els |-> <<>>,
-                embedDecl |-> {}, densDecl |-> {}, dip |-> <<>>, quad |-> <<>>] :
-                  t \in Tg, n \in NRs, ps \in PotSeqsUpTo(MaxPots)}
+PairModels(Tg) ==
+  {mm \in {[fam |-> "pair", tgt |-> t, nr |-> n, nrho |-> 0, pots |-> ps, els |-> <<>>,
+            embedDecl |-> {}, densDecl |-> {}, dip |-> <<>>, quad |-> <<>>] :
+               t \in Tg, n \in NRs, ps \in PotSeqsUpTo(MaxPots)} :
+      \* delpot = cutoff/(ngrid-4) is undefined for ngrid = 4: outside C02's domain (it is C16's subject)
+      ~(mm.tgt = "DLPOLY" /\ mm.nr = 4)}
 
 \* EAM family: els is the order in which the elements reach the writer (= declaration order of the embedding
 \* entries, followed by density-only species).  pots: any subset of unordered pairs, each in one orientation.
